@@ -45,6 +45,25 @@ def _call_all(comp, uf, cf, orc, data_by_key, scalar, H, O, rng_ents):
     return out
 
 
+def _diagonal_form(uf):
+    """The form jit.compile_forms substitutes under part='diagonal' (sum of the diagonal blocks of ufl.extract_blocks), or None."""
+    import ufl
+
+    if len({a.number() for a in uf.arguments()}) != 2:
+        return None
+    try:
+        blocked = ufl.extract_blocks(uf, replace_argument=False)
+    except Exception:
+        return None
+    if isinstance(blocked, ufl.form.Form):
+        return None
+    d = None
+    for j in range(len(blocked)):
+        if blocked[j][j] is not None:
+            d = blocked[j][j] if d is None else d + blocked[j][j]
+    return d
+
+
 def run_case(case):
     from vf import corpus
     from vf import harness as H
@@ -122,6 +141,13 @@ def run_case(case):
     orc0 = O.FormOracle(uf, complex_mode=cmode)
     cellname = orc0.cellname
     cache = {}
+    # part='diagonal' on a mixed space compiles a DERIVED form (the diagonal blocks).  When a coefficient or constant of the user's
+    # form lives only in off-diagonal blocks, the derived form has fewer of them and the compiled module numbers its coefficient
+    # positions / constant offsets relative to the derived form, not the form the user passed (known finding, see classifier below)
+    dform = _diagonal_form(uf) if mode == "diagonal" else None
+    renumbered = dform is not None and (list(dform.constants()) != list(uf.constants()) or list(dform.coefficients()) != list(uf.coefficients()))
+    if renumbered:
+        count("diagonal_forms_with_dropped_coefficients_or_constants")
 
     def data_by_key_factory(kind):
         def f(itype, sid):
@@ -155,6 +181,14 @@ def run_case(case):
             outs.append(_call_all(comp, uf, comp.objs[0], orc, dk, scalar, H, O, rng))
             count("kernel_calls", len(outs[-1]))
             res["evaluations"] += len(outs[-1])
+        alt = {}
+        if renumbered:
+            for oi, (comp, o) in enumerate(zip(comps, opt_sets)):
+                if comp is not None and o.get("part") == "diagonal":
+                    try:  # the same kernels with w/c packed by the derived form's own coefficient/constant lists
+                        alt[oi] = _call_all(comp, dform, comp.objs[0], O.FormOracle(dform, complex_mode=cmode, diagonal=True), dk, scalar, H, O, rng)
+                    except Exception:
+                        pass
         base = outs[0]
         for oi in range(1, len(opt_sets)):
             if outs[oi] is None:
@@ -196,6 +230,11 @@ def run_case(case):
                                       "rel_diff": err, "bound": bound, "measured_table_delta": dmax, "max_abs": scale}
                 elif mode == "tol" and err <= 100 * bound and dmax > 1e-12:
                     count("grey_band")
+                elif mode == "diagonal" and oi in alt and key in alt[oi] and float(np.max(np.abs(alt[oi][key].astype(wide).reshape(ref.shape) - ref))) / scale <= bound:
+                    viol("diagonal-option-renumbers-coefficients-and-constants",
+                         f"options {o} on {key}: the diagonal kernel equals the diagonal of the full tensor only when w/c are packed by the coefficient/constant "
+                         f"lists of the derived diagonal-block form ({len(dform.coefficients())} coefficients, {len(dform.constants())} constants) instead of the "
+                         f"compiled user's form ({len(uf.coefficients())}, {len(uf.constants())}); with the user's lists the relative difference is {err:.3e}")
                 else:
                     viol({"sumfact": "sum-factorization-changes-tensor", "diagonal": "diagonal-differs-from-full", "tol": "tolerance-changes-beyond-allowed"}.get(mode, "option-changes-tensor"),
                          f"options {o} vs {opt_sets[0]} on {key} ({kind} geometry): relative difference {err:.3e} > {bound:.1e} (measured table delta {dmax:.1e})")
@@ -203,7 +242,9 @@ def run_case(case):
     for comp, o, d in zip(comps, opt_sets, deltas):
         if comp is None:
             continue
-        obs, desc, orc = VC.run_form(uf, comp, comp.objs[0], rng, scalar=scalar, entity_mode="some", entity_limit=3, perm_mode="some",
+        # (with dropped coefficients/constants the value check packs by the derived form: the packing defect is reported once, above)
+        uf_o = dform if (renumbered and o.get("part") == "diagonal") else uf
+        obs, desc, orc = VC.run_form(uf_o, comp, comp.objs[0], rng, scalar=scalar, entity_mode="some", entity_limit=3, perm_mode="some",
                                      sum_factorization=bool(o.get("sum_factorization")), diagonal=o.get("part") == "diagonal", delta=d)
         for ob in obs:
             res["evaluations"] += 1
@@ -257,6 +298,10 @@ def cases_for(tier, s):
             R.append({"mode": "diagonal", "recipe": {"b": "vector_elasticity", "cell": cell}, "option_sets": DG})
             R.append({"mode": "diagonal", "recipe": {"b": "stokes", "cell": cell}, "option_sets": DG})
         R.append({"mode": "diagonal", "recipe": {"b": "facet_flux", "cell": cell}, "option_sets": DG})
+        if cell in ("triangle", "tetrahedron"):
+            # a constant / a coefficient that occurs only in an off-diagonal block (packing relative to the user's form)
+            R.append({"mode": "diagonal", "recipe": {"b": "diag_dropped", "cell": cell, "p": {"what": "constant"}}, "option_sets": DG})
+            R.append({"mode": "diagonal", "recipe": {"b": "diag_dropped", "cell": cell, "p": {"what": "coefficient"}}, "option_sets": DG})
         R.append({"mode": "diagonal", "recipe": {"b": "dg_jump", "cell": cell}, "option_sets": DG})
     # ---- tolerances
     grid = [{}, {"table_rtol": 1e-3, "table_atol": 1e-3}, {"table_rtol": 1e-12, "table_atol": 1e-12}, {"table_rtol": 1e-6, "table_atol": 1e-4},
